@@ -256,6 +256,7 @@ func echoSpecs() []*MethodSpec {
 
 var c13Asset = []byte(strings.Repeat("static asset bytes that must never change; ", 8))
 var c13AssetCopy = append([]byte(nil), c13Asset...)
+
 // c13NestedMux: the mux the PutRaw handler sends its own request through.
 var c13NestedMux atomic.Pointer[interface{}]
 
